@@ -30,8 +30,13 @@ func VerifAlloc(arg string) {
 	vStoreNode(p, "node", nd)
 
 	memReq := vInt64("mem_request", 0, vMemMax)
+	memLimit := memReq
+	if vParam(arg, "ml", 0) == 1 {
+		// a memory limit of its own (the plugin reserves the request, the engine enforces the limit)
+		memLimit = vInt64("mem_limit", 0, vMemMax)
+	}
 	count := vInt("count", 1, maxCount)
-	raw := vRequest(bind, r, memReq, memReq)
+	raw := vRequest(bind, r, memReq, memLimit)
 	if lim > 0 {
 		raw["cpu-limit"] = float64(lim) / 1000
 		if bind && lim > r {
@@ -43,6 +48,7 @@ func VerifAlloc(arg string) {
 	if req.Validate() != nil {
 		vAssume(false)
 	}
+	memReq = req.MemRequest // the request as the plugin normalises it (zero request with a limit => the limit)
 
 	// reported capacity on the pre-state
 	capInfo := p.doGetNodeDeployCapacity(vLoadNode(p, "node"), req)
@@ -96,7 +102,7 @@ func VerifAlloc(arg string) {
 		vAssert("C04/memory-request-recorded", w.MemoryRequest == memReq)
 		perNode[w.NUMANode]++
 		if w.NUMANode != "" {
-			vAssert("C08/numa-memory-recorded", w.NUMAMemory[w.NUMANode] == memReq)
+			vAssert("C04,C08/numa-memory-recorded-is-the-request", w.NUMAMemory[w.NUMANode] == memReq)
 		}
 	}
 	for i := 0; i < n; i++ {
